@@ -202,7 +202,7 @@ def build_module(module, flags=(), san="plain", extra_sources=(), driver_src=Non
 BUILTIN_NAMES = ["true", "false", "BOOLEAN", "NULL", "INTEGER", "ENUMERATED", "REAL", "BIT_STRING", "OCTET_STRING",
                  "OBJECT_IDENTIFIER", "RELATIVE-OID", "SEQUENCE", "SET", "CHOICE", "SEQUENCE_OF", "SET_OF", "IA5String",
                  "VisibleString", "PrintableString", "NumericString", "UTF8String", "BMPString", "UniversalString",
-                 "UTCTime", "GeneralizedTime", "PLUS-INFINITY", "MINUS-INFINITY", "NOT-A-NUMBER", "zz-unknown", ""]
+                 "UTCTime", "GeneralizedTime", "PLUS-INFINITY", "MINUS-INFINITY", "NOT-A-NUMBER", "zz-unknown", "id", "val", ""]
 _names_file = None
 
 
